@@ -30,8 +30,29 @@ CLAUSES = {
 PROFILES = {
     ("C01", "quick"): dict(design=[("c01.cfg", 300)],
                            gen=[("sim_c01.cfg", "bfs", 1, 2, [], 1200)]),
-    ("C01", "thorough"): dict(design=[("c01_t1.cfg", 1500), ("c01_t2.cfg", 1500)],
-                              gen=[("sim_c01.cfg", "bfs", 1, 2, [], 16000), ("sim_c01_t.cfg", ("sim", 400, 60), 2, 2, [], 6000)]),
+    ("C01", "thorough"): dict(design=[("c01_t1.cfg", 2400), ("c01_t2.cfg", 2400), ("c02b_q.cfg", 1200)],
+                              gen=[("sim_c01.cfg", "bfs", 1, 2, [], 16000),
+                                   ("sim_c01_t.cfg", ("sim", 400, 60), 2, 2, [], 6000)]),
+    ("C02", "quick"): dict(design=[("c02_q.cfg", 300), ("c02b_q.cfg", 600)],
+                           gen=[("sim_c02.cfg", "bfs", 1, 2, [2], 800), ("sim_c02b.cfg", "bfs", 2, 2, [], 600)],
+                           post=["drain"]),
+    ("C02", "thorough"): dict(design=[("c02.cfg", 1800), ("c02_t1.cfg", 3600), ("c02b.cfg", 3600)],
+                              gen=[("sim_c02.cfg", "bfs", 1, 2, [2], 12000), ("sim_c02b.cfg", "bfs", 2, 2, [], 8000),
+                                   ("sim_c02_t.cfg", ("sim", 400, 70), 2, 3, [3], 6000)],
+                              post=["drain"]),
+    ("C03", "quick"): dict(design=[("c01.cfg", 300)], tick=[("tick.cfg", 600), ("tick_2s.cfg", 600)],
+                           gen=[("sim_c01.cfg", "bfs", 1, 2, [], 1000)],
+                           post=["drain", "tick", "tick", "tick", "tick", "final"]),
+    ("C03", "thorough"): dict(design=[("c01_t1.cfg", 2400), ("c02b_q.cfg", 1200)],
+                              tick=[("tick.cfg", 900), ("tick_slow.cfg", 900), ("tick_2s.cfg", 1800)],
+                              gen=[("sim_c01.cfg", "bfs", 1, 2, [], 12000), ("sim_c02b.cfg", "bfs", 2, 2, [], 6000),
+                                   ("sim_c01_t.cfg", ("sim", 300, 60), 2, 2, [], 4000)],
+                              post=["drain", "tick", "tick", "tick", "tick", "final"]),
+    ("C04", "quick"): dict(design=[("c04_q.cfg", 600)],
+                           gen=[("sim_c04.cfg", "bfs", 1, 2, [], 700), ("sim_c04s.cfg", "bfs", 1, 2, [], 300)]),
+    ("C04", "thorough"): dict(design=[("c04.cfg", 2400), ("c04s.cfg", 2400), ("c04_t1.cfg", 5400)],
+                              gen=[("sim_c04.cfg", "bfs", 1, 2, [], 12000), ("sim_c04s.cfg", "bfs", 1, 2, [], 3000),
+                                   ("sim_c04_t.cfg", ("sim", 300, 70), 2, 2, [], 3000)]),
 }
 
 
@@ -188,25 +209,29 @@ def classify(run, li, clause, s, tid):
     if clause != "early":
         return sig
     upto = run[:li + 1]
-    recv_at = None
+    recv_at = 0
     for k, e in enumerate(upto):
         if e["ev"] == "SrcBatch" and e["s"] == s and tid in e["ids"]:
             recv_at = k
+            break
+    owner = None
+    try:
+        owner = run[0]["route"][str(s)][tid - 1]
+    except Exception:
+        pass
     sent = [(k, e) for k, e in enumerate(upto) if e["ev"] == "TgtMsg" and
             any(t["s"] == s and t["id"] == tid for t in e["tasks"])]
     closed = {(e["t"], e["inc"]) for e in upto if e["ev"] == "TgtClose"}
-    tgt_fault_after = any(e["ev"] == "TgtClose" for e in upto[(recv_at or 0):])
-    src_fault_after = any(e["ev"] == "SrcClose" and e["s"] == s for e in upto[(recv_at or 0):])
-    if sent:
-        k, e = sent[-1]
-        if (e["t"], e["inc"]) in closed:
-            sig["cause"] = "entry-lost-with-target-incarnation"
-        else:
-            sig["cause"] = "unconfirmed-on-live-target"
-    elif tgt_fault_after:
+    owner_fault_after = any(e["ev"] == "TgtClose" and e["t"] == owner for e in upto[recv_at:])
+    src_fault_after = any(e["ev"] == "SrcClose" and e["s"] == s for e in upto[recv_at:])
+    if src_fault_after:
+        sig["cause"] = "ack-state-reset-by-source-reconnect"
+    elif sent and (sent[-1][1]["t"], sent[-1][1]["inc"]) in closed:
         sig["cause"] = "entry-lost-with-target-incarnation"
-    elif src_fault_after:
-        sig["cause"] = "entry-lost-with-source-incarnation"
+    elif not sent and owner_fault_after:
+        sig["cause"] = "entry-lost-with-target-incarnation"
+    elif sent:
+        sig["cause"] = "unconfirmed-on-live-target"
     else:
         sig["cause"] = "never-forwarded"
     return sig
@@ -229,6 +254,12 @@ def run(c, a):
             c.notes.append("design-level counterexample in %s: %s (must be reproduced on the real code to count)" % (cfg, r.violated))
         elif not r.ok:
             raise Broken("TLC did not complete on %s: %s" % (cfg, r.error_text[-800:]))
+    for cfg, tmo in prof.get("tick", []):
+        r = c.tlc("Routing", "RoutingTick", cfg, workers=12, timeout=tmo, name="tick-" + cfg[:-4])
+        if r.violated:
+            c.notes.append("design-level counterexample in %s: %s" % (cfg, r.violated))
+        elif not r.ok:
+            raise Broken("TLC did not complete on %s: %s" % (cfg, r.error_text[-800:]))
     # 2-4. behaviours -> real code -> monitor
     all_runs = []
     gen_info = []
@@ -236,6 +267,8 @@ def run(c, a):
         scheds, total = generate(c, cfg, mode, ns, nt, late, limit)
         if not scheds:
             raise Broken("no behaviours generated from " + cfg)
+        for sc in scheds:
+            sc["cmds"] += [{"c": x} for x in prof.get("post", [])]
         runs = run_schedules(c, scheds, "g%d" % gi)
         gen_info.append({"cfg": cfg, "behaviours_generated": total, "replayed": len(scheds), "runs": len(runs)})
         all_runs += [(scheds, r) for r in runs]
